@@ -261,3 +261,49 @@ Theorem C04_c_wps_euclidean_kernel_as_written :
       ((s + cw_shift l1 l2 window (Z.of_nat i - 1))%Z = 0%Z -> (Z.of_nat i <= cw_ri2 l1 l2 window)%Z) ->
       aget wps' (Z.of_nat i * W + s) = mget (wps_matrix uab s1 s2) i (Z.to_nat (s + cw_shift l1 l2 window (Z.of_nat i - 1))).
 Proof. intros window p m mld psi Hw uab s1 s2 d Hd1 Hd2 H1 H2 Hp1 Hp2. exact (c_wps_eu_kernel_returns_the_dtw_value window p m mld psi Hw s1 s2 d Hd1 Hd2 H1 H2 Hp1 Hp2). Qed.
+
+(* THE C FULL MATRIX, AS WRITTEN END TO END: the regenerated kernel fills the compact array, the regenerated
+   dtw_expand_wps_slice (Gen_cexpw.v; dtw_expand_wps passes the whole matrix as the slice) copies it into the
+   (re-rb) x (ce-cb) block - for EVERY slice 0 <= rb < re <= l1+1, 0 <= cb < ce <= l2+1 and any content of the caller's
+   block: cell (i-rb, j-cb) of the block IS cell (i, j) of the specification matrix, every read and write in range.
+   Not claimed: column 0 below the left overlap and row 0 beyond the compact width, which the compact array does not
+   keep (known finding F23: psi-relaxed border cells there read infinity). *)
+From DV Require Import CExpW.
+From DVGen Require Import Gen_cexpw.
+
+Theorem C04_c_fill_then_expand_as_written :
+  forall (window p m mld : Z) (psi : (nat * nat) * (nat * nat)), (0 <= window)%Z ->
+  let usq := c_to_u (cs_of window p m mld psi SqEuclid) in
+  forall (s1 s2 : list point) (d : nat),
+  (forall q, In q s1 -> List.length q = d) -> (forall q, In q s2 -> List.length q = d) ->
+  (1 <= List.length s1)%nat -> (1 <= List.length s2)%nat ->
+  (psi_1b usq <= List.length s1)%nat -> (psi_2b usq <= List.length s2)%nat ->
+  forall ce0 shiftf ced1 ced2 (wps0 : list cost) psi_neg idist zp1e zp2e (rb re cb ce : Z) (full0 : list cost),
+  let l1 := Z.of_nat (List.length s1) in let l2 := Z.of_nat (List.length s2) in
+  let W := cw_width l1 l2 window in
+  Z.of_nat (List.length wps0) = ((l1 + 1) * W)%Z -> (idist =? 1)%Z = false ->
+  (0 <= rb < re)%Z -> (re <= l1 + 1)%Z -> (0 <= cb < ce)%Z -> (ce <= l2 + 1)%Z ->
+  Z.of_nat (List.length full0) = ((re - rb) * (ce - cb))%Z ->
+  exists wps' full',
+    c_dtw_warping_paths_ndim ce0 shiftf ced1 ced2 wps0 (List.concat s1) l1 (List.concat s2) l2 false true psi_neg (Z.of_nat d)
+      ((l1 + 1) * W)%Z (c_parts_ldiff l1 l2) (c_parts_ldiffr l1 l2 (c_parts_ldiff l1 l2))
+      (c_parts_ldiffc l1 l2 (c_parts_ldiff l1 l2)) (c_parts_window l1 l2 window) W ((l1 + 1) * W)%Z
+      (c_parts_ri1 l1 (c_parts_overlap_left l1 (c_parts_ldiffr l1 l2 (c_parts_ldiff l1 l2)) (c_parts_window l1 l2 window))
+                      (c_parts_overlap_right l1 (c_parts_ldiffr l1 l2 (c_parts_ldiff l1 l2)) (c_parts_window l1 l2 window)))
+      (c_parts_ri2 l1 (c_parts_overlap_left l1 (c_parts_ldiffr l1 l2 (c_parts_ldiff l1 l2)) (c_parts_window l1 l2 window)))
+      (c_parts_ri3 l1 (c_parts_overlap_left l1 (c_parts_ldiffr l1 l2 (c_parts_ldiff l1 l2)) (c_parts_window l1 l2 window))
+                      (c_parts_overlap_right l1 (c_parts_ldiffr l1 l2 (c_parts_ldiff l1 l2)) (c_parts_window l1 l2 window)))
+      (adj_max_step usq) Inf (Fin (adj_penalty usq)) idist false (Z.of_nat (psi_1b usq)) zp1e (Z.of_nat (psi_2b usq)) zp2e false
+    = (CLang.RPlain (Fin (-1)), wps', true) /\
+    c_dtw_expand_wps_slice wps' full0 l1 l2 rb re cb ce ((re - rb) * (ce - cb))%Z ((l1 + 1) * W)%Z
+      (c_parts_ldiff l1 l2) (c_parts_ldiffc l1 l2 (c_parts_ldiff l1 l2)) (c_parts_window l1 l2 window) W
+      (c_parts_ri1 l1 (c_parts_overlap_left l1 (c_parts_ldiffr l1 l2 (c_parts_ldiff l1 l2)) (c_parts_window l1 l2 window))
+                      (c_parts_overlap_right l1 (c_parts_ldiffr l1 l2 (c_parts_ldiff l1 l2)) (c_parts_window l1 l2 window)))
+      (c_parts_ri2 l1 (c_parts_overlap_left l1 (c_parts_ldiffr l1 l2 (c_parts_ldiff l1 l2)) (c_parts_window l1 l2 window)))
+      (c_parts_ri3 l1 (c_parts_overlap_left l1 (c_parts_ldiffr l1 l2 (c_parts_ldiff l1 l2)) (c_parts_window l1 l2 window))
+                      (c_parts_overlap_right l1 (c_parts_ldiffr l1 l2 (c_parts_ldiff l1 l2)) (c_parts_window l1 l2 window)))
+    = (CLang.RPlain (Fin 0), full', true) /\
+    Z.of_nat (List.length full') = ((re - rb) * (ce - cb))%Z /\
+    forall i j, (rb <= i < re)%Z -> (cb <= j < ce)%Z -> (j = 0%Z -> (i <= cw_ri2 l1 l2 window)%Z) -> (i = 0%Z -> (j <= W - 1)%Z) ->
+      aget full' ((i - rb) * (ce - cb) + (j - cb)) = mget (wps_matrix usq s1 s2) (Z.to_nat i) (Z.to_nat j).
+Proof. intros window p m mld psi Hw usq s1 s2 d Hd1 Hd2 H1 H2 Hp1 Hp2. exact (c_fill_then_expand window p m mld psi Hw s1 s2 d Hd1 Hd2 H1 H2 Hp1 Hp2). Qed.
